@@ -186,6 +186,7 @@ func (c *Call) Ex() bool { return c.ex }
 func (c *Call) G() int   { return c.g }
 
 // CX is the kind of context the call passes to a ...Ctx entry point: 0 Background, 1 a deadline far in the future,
+// 3 a deadline that has already passed (context.DeadlineExceeded; only in dl=1 sections),
 // 2 an already cancelled context (the cache lookup inside the flight fails with context.Canceled: no query, the error
 // goes to everyone who shares the flight; printed err=lk).
 func (c *Call) CX() int { return c.cx }
@@ -423,7 +424,7 @@ func RunSection(cfg verifh.Cfg, ops []string, mk func(cfg verifh.Cfg) Target) []
 							break
 						}
 					}
-				} else if err == context.Canceled && mode == "rm" {
+				} else if (err == context.Canceled || err == context.DeadlineExceeded) && mode == "rm" {
 					// the lookup inside the flight failed (cancelled context of the flight's leader)
 					c.err = "lk"
 				} else if err != nil {
@@ -638,6 +639,7 @@ func Gen(r *verifh.Rng, nsec int, via string) []verifh.Section {
 		objs := r.Pick(1, 1, 2, 3)
 		var ops []string
 		id := 0
+		dlSec, nDl := nodeUser(via) && r.Chance(1, 4), 0
 		if mode == "rm" && via == "" && r.Chance(1, 3) {
 			// pre-registered resources (Inject): GetResource must hand out exactly those, create never runs
 			for ob := 0; ob < objs; ob++ {
@@ -744,8 +746,16 @@ func Gen(r *verifh.Rng, nsec int, via string) []verifh.Section {
 					op += fmt.Sprintf(" ep=%d", ep)
 				}
 				if ep >= 2 {
-					// the context handed to TakeCtx / TakeWithExpireCtx: Background, far deadline, already cancelled
-					op += fmt.Sprintf(" cx=%d", r.Pick(0, 1, 1, 2))
+					// the context handed to TakeCtx / TakeWithExpireCtx: Background, far deadline, already cancelled; in dl=1
+					// sections (breaker isolated: a redis client of their own) at most 4 calls with an EXPIRED deadline -
+					// context.DeadlineExceeded counts as a failure for the redis breaker, 4 failures stay below its
+					// protection threshold, so it never drops a healthy call
+					cx := r.Pick(0, 1, 1, 2)
+					if dlSec && nDl < 4 && r.Chance(1, 3) {
+						cx = 3
+						nDl++
+					}
+					op += fmt.Sprintf(" cx=%d", cx)
 				}
 				ops = append(ops, op)
 			}
@@ -754,6 +764,9 @@ func Gen(r *verifh.Rng, nsec int, via string) []verifh.Section {
 		if via != "" {
 			// the constructor's options: 0 none, 1 / 2 present, 3 zero-valued, 4 negative, 5 empty / swapped order (see the targets)
 			cfg += fmt.Sprintf(" opt=%d", r.Pick(0, 0, 1, 2, 3, 4, 5))
+		}
+		if dlSec {
+			cfg += " dl=1"
 		}
 		if nodeUser(via) {
 			// dst=1: every goroutine takes into ONE destination variable, call after call, and overwrites it as soon as a
